@@ -61,6 +61,8 @@ OPS = [
     ("sel", ("eq", R("b"), R("c"))),
     ("sel", ("lt", R("x"), L(0))),
     ("sel", ("plit", False)),
+    ("sel", ("and", ("lt", R("x"), L(0)), ("plit", False))),
+    ("sel", ("and", ("gt", R("a"), L(0)), ("plit", False))),
     ("dedup",),
     ("sort", ((R("a"), True),)),
     ("sort", ((R("b"), False), (R("a"), True))),
